@@ -96,6 +96,11 @@ CHECKS = {
             "intervals, tz-aware times and quoted names are placed at 9 nesting positions under each class (inner query built by the same or the generic class, inline and "
             "parameterised) and the tokens between marker brackets must have the form the convention table prescribes for the outer class.",
             "Trusted: the convention table (DESIGN.md Appendix C) and the normalisation rewrites in pbt/props/c08.py."),
+    "C03": ("Hypothesis-generated semantic statement descriptions -> builder program (SQLLiteQuery) and independent fully bracketed/qualified reference text; differential execution on generated SQLite databases (+ EXPLAIN bytecode comparison)",
+            "From one semantic description two texts are derived: the library's rendering of the builder calls and a reference transcription written by an independent "
+            "emitter (every operator bracketed, every column qualified, GROUP BY/ORDER BY as expressions/positions). SQLite must accept the library's text, and on 3 generated "
+            "databases per case both must return the same rows in the same order (total ORDER BY whenever order matters) or leave the same table contents.",
+            "Trusted: SQLite 3.40 and the reference emitter R_* in pbt/props/c03.py (its text must itself be accepted by the engine, else the run aborts as a harness error)."),
 }
 
 NOT_BUILT = {}
